@@ -22,6 +22,8 @@ func main() {
 		os.Exit(runConcrete(os.Args[2:]))
 	case "difftest":
 		os.Exit(runDiff(0))
+	case "mapranges":
+		listMapRanges()
 	case "replay":
 		os.Exit(runReplay(os.Args[2]))
 	default:
